@@ -2,7 +2,8 @@
 R1 extended-real evaluation of every price and closed-form delta at the boundary cases (t=0 / v=0) x sign of the log-moneyness
 x position of the running maximum: no NaN, value = the payoff that is then certain; R2 every bs_* function reaches the
 non-negativity guards of d1/d2 with its own (t, v); R3 interior cases are NaN-free (what the hedger evaluates before maturity).
-Added after the seeded-defect rounds: R1h exact limits of npdf/ncdf at +-inf from their own bodies; R3 Whalley-Wilmott width for negative gamma; R3w WhalleyWilmott(EuropeanOption).forward end to end at zero volatility before maturity."""
+Added after the seeded-defect rounds: R1h exact limits of npdf/ncdf at +-inf from their own bodies; R3 Whalley-Wilmott width for negative gamma; R3w WhalleyWilmott(EuropeanOption).forward end to end at zero volatility before maturity.
+Rounds 4-5: R3m the half-width the Whalley-Wilmott module itself computes, for any real gamma."""
 import sympy as sp
 
 from .. import bsterms as B
